@@ -279,8 +279,42 @@ def _mun_gaps(ex, seed):
         open(p, "w").write("\n".join(rows))
 
 
+# missing rain values: multi-year weather files (layout 1 = csv of ex1, layout 2 = '@YYYYJJJ' table of rue) with isolated and
+# consecutive missing precipitation days under the none values -99.9, -99 and 999.9 (the mm -> cm conversion must not touch the marker)
+GAP_MARKERS = (("gap_m999", "-99.9"), ("gap_m99", "-99"), ("gap_p999", "999.9"))
+_R = "project=rue WeatherFolder=%s fcode=109_121 plotNr=10002 soilId=001 Altitude=46 Latitude=52.6431 poligonID=30169 WeatherNoneValue=%s"
+_G = "project=ex1 WeatherFolder=%s soilId=075 fcode=109_120 plotNr=10001 Altitude=73 Latitude=52.6732 poligonID=29872 WeatherNoneValue=%s"
+C08_GAP_LINES = ([(_G % g, "EN") for g in GAP_MARKERS] + [(_R % g, "DE") for g in GAP_MARKERS[:2]])
+
+
+def _rain_gaps(ex, seed):
+    import random
+    src = os.path.join(ex, "weather", "historical")
+    for folder, marker in GAP_MARKERS:
+        dst = os.path.join(ex, "weather", folder)
+        if os.path.isdir(dst):
+            continue
+        os.makedirs(dst)
+        rnd = random.Random(seed * 31 + len(marker))
+        for fn, sep in (("109_120.csv", ","), ("109_121.w6d", None)):
+            rows = open(os.path.join(src, fn)).read().split("\n")
+            hdr = rows[0].split(sep)
+            pi = hdr.index("precip" if sep else "PREC")
+            first = 2 if sep else 1
+            i = first + 40
+            while i < len(rows) - 40:
+                run = rnd.choice([1, 1, 2, 3])          # isolated and consecutive gaps, never on the first/last days of the file
+                for k in range(run):
+                    t = rows[i + k].split(sep)
+                    if len(t) > pi:
+                        t[pi] = marker
+                        rows[i + k] = (sep.join(t) if sep else " " + "  ".join(t))
+                i += run + rnd.randint(5, 45)
+            open(os.path.join(dst, fn), "w").write("\n".join(rows))
+
+
 def _sweep_lines(ctx):
-    lines = list(waterlib.SWEEP_QUICK) + list(C08_SWEEP_QUICK)
+    lines = list(waterlib.SWEEP_QUICK) + list(C08_SWEEP_QUICK) + list(C08_GAP_LINES)
     if ctx.thorough:
         lines += list(waterlib.SWEEP_MORE) + list(C08_SWEEP_MORE)
     out = []
@@ -300,6 +334,7 @@ def _run(ctx):
     ex = waterlib.prepare_examples(ctx)
     _potato_project(ex)
     _mun_gaps(ex, ctx.seed)
+    _rain_gaps(ex, ctx.seed)
     lf = os.path.join(ctx.work, "c08_lines.txt")
     with open(lf, "w") as f:
         f.write("\n".join(_lines(ctx) + [POTATO_LINE % (1990 if ctx.thorough else 1984)]) + "\n")
@@ -381,7 +416,8 @@ def correspond(ctx):
     ctx.extra["configuration_sweep"] = ("%d short runs with one or two keys away from the projects' own configuration (waterlib.SWEEP_* "
                                         "+ C08_SWEEP_*: ETpot 1-5, CO2method x CO2StomataInfluence x CO2concentration, KcFactorBareSoil "
                                         "0.4/1.2/2.0, CoastDistance, Latitude polar/equator, Altitude, groundwater in the root zone with "
-                                        "irrigation, reference ET with sentinels and negative values): %d days, %d crop days, %d days with "
+                                        "irrigation, reference ET with sentinels and negative values, missing rain days under the none values -99.9 / -99 / "
+                                        "999.9 in weather layouts 1 and 2): %d days, %d crop days, %d days with "
                                         "a negative reference ET, every day judged by the same oracles, sampled days in the bit-exact tie"
                                         % (len(sw), sum(r_["days"] for r_ in sw), sum(r_["crop_days"] for r_ in sw),
                                            sum(r_.get("negative_reference_et_days", 0) for r_ in sw)))
